@@ -31,7 +31,7 @@ ASSUMPTIONS = [
     "the string classes that differ there are listed as findings and excluded by construction",
     "string macros are not generated (parser 1 keeps the quotes of the definition, parser 2 strips them): recorded finding",
 ]
-BUDGET = {"quick": {"examples": 2400}, "thorough": {"examples": 200000, "deadline_s": 1500}}
+BUDGET = {"quick": {"examples": 2400}, "thorough": {"examples": 200000, "deadline_s": 900}}
 
 CFG = gen.cfg(max_syms=12, p_source=12, p_macro=10, p_env=10, p_comment=12, p_menu=18, p_if=18, p_choice=14, p_help=35, p_warning=10, p_multi_def=10, p_choice_twice=20)
 
